@@ -1387,8 +1387,9 @@ Qed.
 
 Lemma node_step_win W n ev : win_ok W (n_ep n) -> win_ok W (n_ep (node_step n ev)).
 Proof.
-  intros H. destruct ev as [m now|now]; cbn [node_step].
+  intros H. destruct ev as [m now|now|body sid now fj]; cbn [node_step].
   2: { destruct (n_known n); cbn [n_ep]; [apply tick_win; exact H|exact H]. }
+  2: { destruct (n_known n); cbn [n_ep]; [apply submit_win; exact H|exact H]. }
   unfold node_dispatch. destruct (n_known n && m_tid_ok m); [|exact H].
   pose proof (deliver_win false W _ (m_pkt m) now None H) as D.
   destruct (ep_deliver false (n_ep n) (m_pkt m) now None) as [e1 ob]. cbn [fst] in D.
@@ -1851,3 +1852,20 @@ Lemma reachable_inv ai am ar az aw bi bm br bz bw oa ob evs :
   Z.of_nat (length (e_sub (s_a s))) < 32768 -> Z.of_nat (length (e_sub (s_b s))) < 32768 ->
   dir_inv oa (s_a s) (s_b s) /\ dir_inv ob (s_b s) (s_a s).
 Proof. intros Hh s BA BB. apply run_inv; [apply init_inv|exact Hh|split; assumption]. Qed.
+
+(* the states the progress / accounting theorems talk about do occur: at the end of [wrap_run] A's queue is empty
+   and A never declared dead (quiescent: everything delivered), B's only message is handed over but not yet
+   acknowledged (still queued, in flight) *)
+Lemma accounting_example :
+  let s := run false (init_sys (100, 400, 3, 50, 1) (100, 400, 3, 50, 1) 65535 32767) wrap_run in
+  c_q (e_ch (s_a s)) = [] /\ e_dead (s_a s) = 0%nat /\ e_del (s_b s) = e_sub (s_a s) /\
+  map p_att (c_q (e_ch (s_b s))) = [1] /\ e_sub (s_b s) = [200] /\ e_del (s_a s) = [200] /\ e_acked (s_b s) = [].
+Proof. vm_compute. splits; reflexivity. Qed.
+
+(* a Tick before the ZLB deadline: armed at 250, Tick at 200 reports 250, the runner comes back at 250 *)
+Lemma runner_zlb_example :
+  let c := fst (fst (fst (recv ex_conf (new_chan 1) 0 0 200 None))) in
+  c_zlb c = Some 250 /\
+  (let '(c', o, d, ret) := tick ex_conf c 200 in o = [] /\ d = false /\ ret = Some 250 /\ runner_next ret 200 = 250) /\
+  (let '(c', o, d, ret) := tick ex_conf c 250 in map k_nr o = [1] /\ c_zlb c' = None).
+Proof. vm_compute. splits; reflexivity. Qed.
